@@ -62,6 +62,9 @@ pub enum Spec17 {
     /// (buffer / block size `block`); frame level, or the last block of a 2-full-blocks stream;
     /// `cfgk`: 0 default, 1 no predictors, 2 verbatim only, 3 fixed order 0 only
     BadSampleAt { stream: bool, mt: bool, channels: usize, block: usize, filled: usize, ch: usize, t: usize, cfgk: u8 },
+    /// frame-level encode with a `StreamInfo` that was DESERIALISED (TOML document, the `serde`
+    /// feature) instead of built with `StreamInfo::new`: the fields hold whatever the document says
+    FrameInfoDeser { channels: usize, bps: usize, rate: usize },
     /// the stream-level entry point with an invalid argument and a source that holds `len`
     /// samples (0 = empty, 1, 5), with or without a length hint: an invalid argument is an error
     /// whether or not there is anything to encode
@@ -269,6 +272,14 @@ pub fn grid17() -> Vec<Spec17> {
             }
         }
     }
+    for channels in [0usize, 1, 2, 3, 8, 9, 255] {
+        for bps in [0usize, 1, 7, 8, 16, 24, 25, 32, 33, 64, 255] {
+            g.push(Spec17::FrameInfoDeser { channels, bps, rate: 44100 });
+        }
+    }
+    for rate in [0usize, 96_000, 96_001, 655_350, 1 << 20, u32::MAX as usize] {
+        g.push(Spec17::FrameInfoDeser { channels: 2, bps: 16, rate });
+    }
     for mt in [false, true] {
         for block in [100usize, 1000] {
             for filled in [block, 37, 99] {
@@ -413,6 +424,18 @@ fn domain17(s: &Spec17) -> Dom {
             }
         }
         Spec17::BadSampleAt { .. } => Dom::Invalid,
+        // the frame buffer in these cases always holds 2 channels of 16-bit material
+        Spec17::FrameInfoDeser { channels, bps, rate } => {
+            if *channels == 2 && *bps == 16 && *rate <= 96_000 {
+                Dom::Valid
+            } else if *channels == 0 || *channels > 8 || !(8..=24).contains(bps) || *rate > 96_000 {
+                Dom::Invalid
+            } else {
+                // a StreamInfo that disagrees with the frame buffer (other channel count, other
+                // supported width): not an argument class the property lists
+                Dom::Unlisted
+            }
+        }
     }
 }
 
@@ -833,6 +856,28 @@ fn exec17(s: &Spec17) -> String {
                     }
                 }
             }
+            Spec17::FrameInfoDeser { channels, bps, rate } => {
+                let v = enc::verified(&cfg).unwrap();
+                let doc = format!("min_block_size = 64\nmax_block_size = 64\nmin_frame_size = 0\nmax_frame_size = 0\nsample_rate = {rate}\nchannels = {channels}\nbits_per_sample = {bps}\ntotal_samples = 0\nmd5 = [0, 0, 0, 0, 0, 0, 0, 0, 0, 0, 0, 0, 0, 0, 0, 0]\n");
+                let si: StreamInfo = match toml::from_str(&doc) {
+                    Ok(si) => si,
+                    Err(_) => return "Err".into(),
+                };
+                let mut fb = FrameBuf::with_size(2, 64).unwrap();
+                let d: Vec<i32> = (0..128).map(|i| ((i * 37) % 200) as i32 - 100).collect();
+                fb.fill_interleaved(&d).unwrap();
+                match flacenc::encode_fixed_size_frame(&v, &fb, 0, &si) {
+                    Ok(f) => {
+                        if *channels == 2 && *bps == 16 {
+                            let ok = f.verify().is_ok() && enc::to_bytes(&f).is_ok();
+                            if ok { "Ok-lossless".into() } else { "Ok-WRONG:the frame does not verify".into() }
+                        } else {
+                            "Ok".into()
+                        }
+                    }
+                    Err(_) => "Err".into(),
+                }
+            }
             Spec17::ContextChannels { channels, bytes } => {
                 let mut c = flacenc::source::Context::new(16, *channels);
                 let r = if *bytes { c.fill_le_bytes(&[1u8; 32], 2) } else { c.fill_interleaved(&[3i32; 16]) };
@@ -878,6 +923,7 @@ fn spec17_class(s: &Spec17) -> String {
         Spec17::FrameEmpty { channels, how, bytes } => format!("encode_fixed_size_frame(FrameBuf of {channels} ch x 64 {}, {})", ["never filled", "filled with an empty slice", "filled, then filled with an empty slice"][*how as usize], if *bytes { "bytes" } else { "ints" }),
         Spec17::FrameAfterResize { channels, new_size, bytes } => format!("FrameBuf::with_size(ch={channels},64) -> resize({}) -> {} of that many samples -> encode_fixed_size_frame", v(*new_size), if *bytes { "fill_le_bytes" } else { "fill_interleaved" }),
         Spec17::ContextChannels { channels, bytes } => format!("Context::new(16, channels={}) -> {}", v(*channels), if *bytes { "fill_le_bytes" } else { "fill_interleaved" }),
+        Spec17::FrameInfoDeser { channels, bps, rate } => format!("encode_fixed_size_frame(2 ch x 16 bit buffer, StreamInfo deserialised from a document: channels={}, bits_per_sample={}, sample_rate={})", v(*channels), v(*bps), v(*rate)),
         Spec17::BadSampleAt { stream, mt, channels, block, filled, ch, t, cfgk } => format!("{}({channels} ch x 16 bit, block {block}, {filled} samples in the block, out-of-range sample at {t} of channel {ch}, config {})", if *stream { if *mt { "encode_with_fixed_block_size[mt]" } else { "encode_with_fixed_block_size[st]" } } else { "encode_fixed_size_frame" }, ["default", "no predictors", "verbatim only", "fixed order 0 only"][*cfgk as usize]),
         Spec17::StreamEncShort { mt, channels, bps, rate, block, len, hint } => format!("encode_with_fixed_block_size[{}](ch={},bps={},rate={},block={}; source of {len} samples, {})", if *mt { "mt" } else { "st" }, v(*channels), v(*bps), v(*rate), v(*block), if *hint { "with length hint" } else { "no hint" }),
     }
@@ -931,6 +977,7 @@ fn spec17_sig(s: &Spec17, outcome: &str) -> String {
         Spec17::FrameEmpty { .. } => "encode_frame|empty-buffer".into(),
         Spec17::FrameAfterResize { new_size, .. } => format!("FrameBuf::resize+encode_frame|{}", if *new_size == 0 { "size0" } else { "block-size" }),
         Spec17::ContextChannels { .. } => "Context::fill|channels".into(),
+        Spec17::FrameInfoDeser { channels, bps, rate } => format!("encode_frame|deserialised-StreamInfo|{}", if *channels == 0 || *channels > 8 { "channels" } else if !(8..=24).contains(bps) { "bps" } else if *rate > 96_000 { "rate" } else { "other" }),
         Spec17::BadSampleAt { stream, mt, cfgk, .. } => format!("{}|sample-at-position|{}", if *stream { if *mt { "encode_stream[mt]" } else { "encode_stream[st]" } } else { "encode_frame" }, ["default-config", "no-predictors", "verbatim-only", "fixed0-only"][*cfgk as usize]),
         Spec17::StreamEncShort { mt, len, .. } => format!("encode_stream[{}]|invalid-argument+{}", if *mt { "mt" } else { "st" }, if *len == 0 { "empty-source" } else { "tiny-source" }),
     };
